@@ -463,11 +463,11 @@ def contracts():
 
     # the typed locals for the two _ListDict_ objects depend on the weight mode: resolved per case below
     def mk_infecteds(run, name, **kw):
-        wtd = run.cur_env['recovery_weight'] is not NONE
+        wtd = run.local('recovery_weight') is not NONE
         return LD.mk_ld('U', wtd)(run, name, **kw)
 
     def mk_links(run, name, **kw):
-        wtd = run.cur_env['transmission_weight'] is not NONE
+        wtd = run.local('transmission_weight') is not NONE
         return LD.mk_ld('Pair', wtd)(run, name, **kw)
     locals_sir['infecteds'] = mk_infecteds
     locals_sir['IS_links'] = mk_links
